@@ -176,12 +176,12 @@ pub fn add_layout_steps(pc: &mut ProbeCrate, b: &Built, case: usize) -> Vec<Step
             let t = &s.name;
             let mut body = String::new();
             body.push_str(&format!(
-                "        fn __fsz<T>(_: *const T) -> usize {{ ::std::mem::size_of::<T>() }}\n        let __u = ::std::mem::MaybeUninit::<{t}>::uninit();\n        let __q = __u.as_ptr();\n        crate::rt::val(\"size\", ::std::mem::size_of::<{t}>() as u64);\n        crate::rt::val(\"align\", ::std::mem::align_of::<{t}>() as u64);\n"
+                "        fn __fsz<T>(_: *const T) -> ::core::primitive::usize {{ ::std::mem::size_of::<T>() }}\n        let __u = ::std::mem::MaybeUninit::<{t}>::uninit();\n        let __q = __u.as_ptr();\n        crate::rt::val(\"size\", ::std::mem::size_of::<{t}>() as ::core::primitive::u64);\n        crate::rt::val(\"align\", ::std::mem::align_of::<{t}>() as ::core::primitive::u64);\n"
             ));
             for f in &s.fields {
                 let fname = &f.name;
                 body.push_str(&format!(
-                    "        crate::rt::val(\"off|{fname}\", ::std::mem::offset_of!({t}, {fname}) as u64);\n        crate::rt::val(\"fsz|{fname}\", __fsz(unsafe {{ ::std::ptr::addr_of!((*__q).{fname}) }}) as u64);\n        crate::rt::val(\"addr_off|{fname}\", (unsafe {{ ::std::ptr::addr_of!((*__q).{fname}) }} as usize - __q as usize) as u64);\n"
+                    "        crate::rt::val(\"off|{fname}\", ::std::mem::offset_of!({t}, {fname}) as ::core::primitive::u64);\n        crate::rt::val(\"fsz|{fname}\", __fsz(unsafe {{ ::std::ptr::addr_of!((*__q).{fname}) }}) as ::core::primitive::u64);\n        crate::rt::val(\"addr_off|{fname}\", (unsafe {{ ::std::ptr::addr_of!((*__q).{fname}) }} as ::core::primitive::usize - __q as ::core::primitive::usize) as ::core::primitive::u64);\n"
                 ));
             }
             let step = pc.add_step(mp, false, body);
@@ -197,7 +197,7 @@ pub fn add_layout_steps(pc: &mut ProbeCrate, b: &Built, case: usize) -> Vec<Step
             let t = &e.name;
             let mut body = String::new();
             body.push_str(&format!(
-                "        crate::rt::val(\"size\", ::std::mem::size_of::<{t}>() as u64);\n        crate::rt::val(\"align\", ::std::mem::align_of::<{t}>() as u64);\n"
+                "        crate::rt::val(\"size\", ::std::mem::size_of::<{t}>() as ::core::primitive::u64);\n        crate::rt::val(\"align\", ::std::mem::align_of::<{t}>() as ::core::primitive::u64);\n"
             ));
             for v in &e.variants {
                 let vn = &v.name;
